@@ -54,6 +54,8 @@ class Hist:
             self.log.append({"edit": edits.describe(edit), "result": f"raised {type(e).__name__}: {str(e)[:160]}"})
             return e
         self.spec = spec_after if spec_after is not None else self.spec_after(edit)
+        if not edits.well_formed(self.spec):
+            raise RuntimeError("harness: generated an edit that leaves a usage pattern outside the system linked to it: " + edits.describe(edit))
         self.log.append({"edit": edits.describe(edit), "result": "ok"})
         return None
 
